@@ -16,7 +16,9 @@ def findTerm (msg seq : Bytes) (orig stop : Nat) : (fuel : Nat) â†’ (p : Nat) â†
 def decodeDct (dct : Dct) : DecM IVal := do
   match dct with
   | .std bt enc hl bl none _ => extractAtomic bl bt enc hl
-  | .std _ _ _ _ (some _) _ => raise .unmodelled
+  | .std bt enc hl bl (some m) c => do
+    let raw â† extractAtomic bl bt enc hl
+    unapplyMask m c raw
   | .minmax bt enc hl minLen maxLen term => do
     let s â† getS
     odxassert (s.cursorBit = 0)
